@@ -81,8 +81,11 @@ def lmpvAux : TNode τ α → List τ → Option α → Option α
 def lmpv (t : TNode τ α) (q : List τ) : Option α := lmpvAux t q none
 
 mutual
-/-- `TrieDict.items()` as a list (pre-order; the Python generator uses an explicit stack and
-yields the same pairs in another order — the order is not part of the contract) -/
+/-- the stored (key, value) pairs in pre-order — the *specification listing* of the trie,
+defined by structural recursion (what the lemmas reason about).  The Python generators
+`items()` / `prefixes()` / `values()` are three independent explicit-stack loops: they are
+modelled as such below (`itemsIter`, `prefixes`, `values`) and proved to be permutations of
+this listing (`Lemmas/TrieDict.lean`: `itemsIter_perm`, `prefixes_perm`, `values_perm`). -/
 def items : TNode τ α → List (List τ × α)
   | .mk val _ ks =>
     val.toList.map (fun v => ([], v)) ++ itemsKids ks
@@ -91,10 +94,54 @@ def itemsKids : List (τ × TNode τ α) → List (List τ × α)
   | (tok, c) :: rest => (items c).map (fun pv => (tok :: pv.1, pv.2)) ++ itemsKids rest
 end
 
+mutual
+/-- number of nodes of the subtree, the node itself included: the number of iterations of the
+`while len(stack) > 0` loops below (every iteration pops exactly one node, every node is
+pushed exactly once) -/
+def size : TNode τ α → Nat
+  | .mk _ _ ks => sizeKids ks + 1
+def sizeKids : List (τ × TNode τ α) → Nat
+  | [] => 0
+  | (_, c) :: rest => size c + sizeKids rest
+end
+
+/-- the loop of `TrieDict.items()` (trie_dict.py:130-143).  The Python `stack` is the list
+with its top (the end of the Python list, where `pop()` / `append` work) at the head:
+`stack.pop()` takes the head, the `for token, child in node.children.items(): stack.append(…)`
+pushes the children in dict order, so the last child ends on top — `reverse`.  `fuel` bounds
+the number of iterations (see `size`). -/
+def itemsLoop : Nat → List (TNode τ α × List τ) → List (List τ × α)
+  | 0, _ => []
+  | _ + 1, [] => []
+  | fuel + 1, (.mk val _ ks, pre) :: stack =>
+    val.toList.map (fun v => (pre, v)) ++
+      itemsLoop fuel ((ks.map fun tc => (tc.2, pre ++ [tc.1])).reverse ++ stack)
+
+/-- `TrieDict.items()` / `__iter__`: the generator, in the order Python yields -/
+def itemsIter (t : TNode τ α) : List (List τ × α) := itemsLoop t.size [(t, [])]
+
+/-- the loop of `TrieDict.prefixes()` (trie_dict.py:145-158): a second, independent copy of
+the loop of `items()` that yields the prefix only -/
+def prefixesLoop : Nat → List (TNode τ α × List τ) → List (List τ)
+  | 0, _ => []
+  | _ + 1, [] => []
+  | fuel + 1, (.mk val _ ks, pre) :: stack =>
+    val.toList.map (fun _ => pre) ++
+      prefixesLoop fuel ((ks.map fun tc => (tc.2, pre ++ [tc.1])).reverse ++ stack)
+
 /-- `TrieDict.prefixes()` -/
-def prefixes (t : TNode τ α) : List (List τ) := t.items.map Prod.fst
+def prefixes (t : TNode τ α) : List (List τ) := prefixesLoop t.size [(t, [])]
+
+/-- the loop of `TrieDict.values()` (trie_dict.py:160-172): a third loop, over a stack of bare
+nodes, `stack.extend(node.children.values())` -/
+def valuesLoop : Nat → List (TNode τ α) → List α
+  | 0, _ => []
+  | _ + 1, [] => []
+  | fuel + 1, .mk val _ ks :: stack =>
+    val.toList ++ valuesLoop fuel ((ks.map Prod.snd).reverse ++ stack)
+
 /-- `TrieDict.values()` -/
-def values (t : TNode τ α) : List α := t.items.map Prod.snd
+def values (t : TNode τ α) : List α := valuesLoop t.size [t]
 
 /-- the pruning walk of `set_and_prune_if_shorter`.  Result: `none` when the walk met a
 valued node before the end of the prefix (the Python `return`, nothing changes), else the
